@@ -45,7 +45,7 @@ def check(rep, tier):
                 if dim != "homogeneous":
                     prog["t_tot"] = float(int(dt * 9800))
                     S = sr.make(dim=dim, conf="shelf", height=h, diameter=d, K=200, prog=prog, cnTemp=first)
-                rec = dict(label="%s/shelf history: built with cnTemp=%r, then S.opcond.cnTemp = -5 in place, run" % (dim, first), dim=dim, conf="shelf", S=S, dt=dt, prog=prog, cnTemp=-5.0, error=None)
+                rec = dict(label="%s/shelf history: built with cnTemp=%r, then S.opcond.cnTemp = -5 in place, run" % (dim, first), dim=dim, conf="shelf", S=S, dt=dt, prog=prog, cnTemp=-5.0, error=None, must_complete=True)
                 S.opcond.cnTemp = -5.0
                 sr.run(S)
             except Exception as e:
@@ -55,7 +55,11 @@ def check(rep, tier):
     for rec in recs:
         S, dt, lab = rec["S"], rec["dt"], rec["label"]
         if rec["error"] is not None:
-            rep.case(lab, nontrivial=False); rep.count("raised"); continue
+            rep.case(lab, nontrivial=False); rep.count("raised")
+            if rec.get("must_complete"):
+                # a fixed corpus configuration (independent of the seed) whose process is long enough: it completes on the pinned tree
+                rep.violation("corpus-run-raises", "%s: the run raises %r although the process is long enough for this vial" % (lab, rec["error"]), dict(run=lab, error=repr(rec["error"])))
+            continue
         cn = rec["cnTemp"]
         res = S.results.iloc[0]
         T = np.asarray(S.temp)
